@@ -188,9 +188,20 @@ def real_definition(enc):
     return concepts.Definition(enc[0], enc[1], [tuple(bool(v) for v in row) for row in enc[2]])
 
 
+def _fresh_copy(value):
+    from .gen import fresh
+    if isinstance(value, str):
+        return fresh(value)
+    if isinstance(value, list):
+        return [_fresh_copy(v) for v in value]
+    if isinstance(value, tuple):
+        return tuple(_fresh_copy(v) for v in value)
+    return value
+
+
 def apply_real(d, op):
     """Apply ``op`` to a real Definition; return its return value (``'self'`` for the in-place operators)."""
-    name, args = op[0], list(op[1:])
+    name, args = op[0], _fresh_copy(list(op[1:]))   # names are equal to, never identical with, the strings passed earlier
     if name == 'setitem':
         d[args[0], args[1]] = args[2]
         return None
